@@ -4,7 +4,7 @@ from vgen import *
 
 # widths instantiated in harness/src/bin/codec_shared/mod.rs
 WIDTHS = [0, 1, 2, 7, 8, 12, 16, 32, 60, 63, 64, 65, 100, 128, 160, 192, 250, 256, 384, 440, 448, 512, 535, 536,
-          832, 1024]
+          832, 1024, 2048, 2056]   # 2048/2056: RLP payloads of 256 / 257 bytes (two-byte length-of-length)
 # always-included classes: BYTES%8=0 and BITS%64!=0 (60, 250, 440, 832?), BITS%8!=0 (1, 7, 12, 63, 65, 100, 250, 535)
 W_FAST_PARTIAL = [w for w in WIDTHS if w and ((w + 7) // 8) % 8 == 0 and w % 64 != 0]   # 60, 63, 250, 440, 512? no
 W_NONBYTE = [w for w in WIDTHS if w % 8 != 0]
